@@ -5,7 +5,7 @@
 From Coq Require Import List ZArith Permutation.
 From V Require Import Gen.Params FrameSorter.Model FrameSorter.InvCheck FrameSorter.Spec
   FrameSorter.ProofsInvOk FrameSorter.ProofsRun
-  RecvStream.Model RecvStream.Spec RecvStream.ProofsCrypto RecvStream.ProofsRecv RecvStream.ProofsRecv2 RecvStream.MgrRun RecvStream.ProofsMgr.
+  RecvStream.Model RecvStream.Spec RecvStream.ProofsCrypto RecvStream.ProofsRecv RecvStream.ProofsRecv2 RecvStream.MgrRun RecvStream.ProofsMgr RecvStream.GlueRun RecvStream.ProofsGlue.
 Import ListNotations.
 Open Scope Z_scope.
 
@@ -364,3 +364,83 @@ Proof.
   - eexists. split; [vm_compute; reflexivity|]. repeat split; vm_compute; reflexivity.
 Qed.
 Print Assumptions C03_crypto_levels_example.
+
+(** ** Round 4: connection glue for CRYPTO data (Conn.handleCryptoFrame / dropEncryptionLevel) *)
+
+(** Through the real call-site logic (manager routing by level, GetCryptoData drained until nil,
+    every message handed to the TLS handler, which may fail): for arbitrary per-level byte strings
+    and every error-free history, the TLS handler has received, per level, exactly that level's
+    string from offset 0. *)
+Theorem C03_glue_tls_exact : forall Sf f ops r,
+  Forall gvalid ops -> grsrun Sf (grst_init f) ops = Some r ->
+  gr_o0 r = slice (Sf 0) 0 (readPos (c_sorter (m_ini (g_m (gr_g r))))) /\
+  gr_o1 r = slice (Sf 1) 0 (readPos (c_sorter (m_hs (g_m (gr_g r))))) /\
+  gr_o2 r = slice (Sf 2) 0 (readPos (c_sorter (m_one (g_m (gr_g r))))).
+Proof. exact glue_tls_exact. Qed.
+Print Assumptions C03_glue_tls_exact.
+
+(** Delivery: when handleCryptoFrame returns nil for a frame of level l, nothing received at
+    level l's read position is left undelivered (the drain loop ran to the end). *)
+Theorem C03_glue_frame_drains : forall Sf f pre l off n r r',
+  Forall gvalid pre -> gvalid (GFrame l off n) ->
+  grsrun Sf (grst_init f) pre = Some r -> grstep Sf r (GFrame l off n) = Some r' ->
+  forall c, mget (g_m (gr_g r')) l = Some c -> ~ cov (queue (c_sorter c)) (readPos (c_sorter c)).
+Proof. exact glue_frame_drains. Qed.
+Print Assumptions C03_glue_frame_drains.
+
+(** dropEncryptionLevel(Initial | Handshake): PROTOCOL_VIOLATION exactly when CRYPTO data of that
+    level is still buffered (state unchanged), otherwise the level's stream is finished. *)
+Theorem C03_glue_drop_spec : forall Sf g l c, (l = 0 \/ l = 1) -> mget (g_m g) l = Some c ->
+  gdrop Sf g l =
+    if HasMoreData (c_sorter c)
+    then ({| g_m := mset (g_m g) l c; g_count := g_count g; g_fail := g_fail g |}, GMgr (MErr CProtocolViolation), false)
+    else ({| g_m := mset (g_m g) l {| c_sorter := c_sorter c; c_highest := c_highest c; c_finished := true |};
+             g_count := g_count g; g_fail := g_fail g |}, GNil, false).
+Proof. exact glue_drop_spec. Qed.
+Print Assumptions C03_glue_drop_spec.
+
+Example C03_glue_example :
+  let ops := [GFrame 0 0 132; GFrame 0 200 64; GFrame 0 129 132; GFrame 1 0 10; GDrop 0] in
+  Forall gvalid ops /\ exists r, grsrun lbyte (grst_init (-1)) ops = Some r /\
+    gr_o0 r = slice (lbyte 0) 0 264 /\ gr_o1 r = slice (lbyte 1) 0 10.
+Proof.
+  cbv zeta. split.
+  - repeat constructor; solve [vm_compute; first [reflexivity | intro; discriminate]].
+  - eexists. split; [vm_compute; reflexivity|]. split; vm_compute; reflexivity.
+Qed.
+Print Assumptions C03_glue_example.
+
+(** Peek liveness at the end of the stream and after a reset (the cases left open in round 3):
+    with nothing latched, a known final size, a request that reaches beyond it, and every byte up
+    to the final size there, Peek does not park; without a reset it returns the rest with io.EOF. *)
+Theorem C03_peek_live_end : forall S w ops r n s' d e bug,
+  0 <= w < MaxBC -> Forall rvalid ops -> rsrun S (rrun_init w) ops = Some r ->
+  0 < n -> PeekS (rr_st r) n = (s', d, e, bug) ->
+  latched (rr_st r) = false -> fc_final (rr_st r) = true -> finalOffset (rr_st r) < rpos (rr_st r) + n ->
+  (forall x, rpos (rr_st r) <= x < finalOffset (rr_st r) ->
+     x < rpos (rr_st r) + crest (rr_st r) \/ cov (queue (sorter (rr_st r))) x) ->
+  e <> EWouldBlock /\
+  (cancelledRemotely (rr_st r) = false -> e = EEOF /\ rpos (rr_st r) + len d = finalOffset (rr_st r)).
+Proof. exact recv_peek_live_end. Qed.
+Print Assumptions C03_peek_live_end.
+
+(** ... and after RESET_STREAM_AT: every byte below the reliable size there and a request that
+    reaches beyond it => Peek does not park. *)
+Theorem C03_peek_live_reset : forall S w ops r n s' d e bug,
+  0 <= w < MaxBC -> Forall rvalid ops -> rsrun S (rrun_init w) ops = Some r ->
+  0 < n -> PeekS (rr_st r) n = (s', d, e, bug) ->
+  latched (rr_st r) = false -> cancelledRemotely (rr_st r) = true -> reliableSize (rr_st r) < rpos (rr_st r) + n ->
+  (forall x, rpos (rr_st r) <= x < reliableSize (rr_st r) ->
+     x < rpos (rr_st r) + crest (rr_st r) \/ cov (queue (sorter (rr_st r))) x) ->
+  e <> EWouldBlock.
+Proof. exact recv_peek_live_reset. Qed.
+Print Assumptions C03_peek_live_reset.
+
+(** Crypto streams hold no buffers: CRYPTO frames are pushed with a nil doneCb, so in every
+    crypto history nothing was ever released and no queued entry carries a callback — the
+    manager's Drop / Finish can neither recycle a buffer twice nor leak one. *)
+Theorem C03_crypto_no_buffers : forall S ops c,
+  Forall cvalid ops -> csrun S crun_init ops = Some c ->
+  fired (c_sorter (cr_st c)) = [] /\ live (queue (c_sorter (cr_st c))) = [].
+Proof. exact crypto_no_buffers. Qed.
+Print Assumptions C03_crypto_no_buffers.
